@@ -220,6 +220,9 @@ def _replay(job):
         sc = [f for f in feats if f in ("deform", "area_um", "fl1_max",
                                         "frame")]
         tp = root / ("out_%d.tsv" % os.getpid())
+        # (the file exists already: an earlier export of all events with
+        # another column set is replaced, not continued)
+        ds.export.tsv(tp, features=sc[:1], filtered=False, override=True)
         ds.export.tsv(tp, features=sc + [sc[0]], filtered=filtered,
                       override=True)
         with open(tp, encoding="utf-8-sig") as fd:
